@@ -137,6 +137,9 @@ class TermEval:
                     return getattr(_op, leafname)(*args)
             if leafname == "slice":
                 return slice(*args)
+            if leafname == "range" and name in ("range", "builtins.range") and 1 <= len(args) <= 3 and \
+                    all(isinstance(a_, int) and not isinstance(a_, bool) for a_ in args):
+                return range(*args)
             if leafname == "len":
                 return len(args[0])
             if leafname in ("int",):
